@@ -3,6 +3,7 @@ use std::mem::size_of;
 
 use fnv::FnvHashSet;
 
+use crate::internal::stream::max_stream_len;
 use crate::internal::{
     consts, Chain, DirEntry, Directory, MiniChain, ObjType, Sector,
     SectorInit, Validation, Version,
@@ -319,6 +320,20 @@ impl<F: Write + Seek> MiniAllocator<F> {
             self.directory.root_dir_entry().start_sector;
         let mini_stream_len = self.directory.root_dir_entry().stream_len;
         debug_assert_eq!(mini_stream_len % consts::MINI_SECTOR_LEN as u64, 0);
+        // The root entry must be able to record the new length: a version 3
+        // directory entry keeps only 32 bits of it (the rest is masked off
+        // when the file is read back, which would leave a MiniFAT longer than
+        // the mini stream).  Refuse before anything is changed.
+        let new_mini_stream_len =
+            mini_stream_len + consts::MINI_SECTOR_LEN as u64;
+        let max_stream_len = max_stream_len(self.version());
+        if new_mini_stream_len > max_stream_len {
+            invalid_input!(
+                "Cannot grow mini stream to {} bytes (the maximum is {} bytes)",
+                new_mini_stream_len,
+                max_stream_len
+            );
+        }
         // If the mini stream doesn't have room for new mini sector, add
         // another regular sector to its chain.
         let new_start_sector =
